@@ -63,6 +63,7 @@ fn main() {
             "C09" => props::c09::replay(&file),
             "C10" => props::c10::replay(&file),
             "C11" => props::c11::replay(&file),
+            "C14" => props::c14::replay(&file),
             _ => {
                 eprintln!("replay is not supported for {id}");
                 2
@@ -80,6 +81,7 @@ fn main() {
         "C09" => props::c09::run(tier),
         "C10" => props::c10::run(tier),
         "C11" => props::c11::run(tier),
+        "C14" => props::c14::run(tier),
         _ => {
             eprintln!("unknown check {id}");
             2
